@@ -143,6 +143,29 @@ Theorem C06_mask2_components : forall k (sg1 sg2 : list (list Z)) (m : meta VLab
 Proof. exact mask2_comp. Qed.
 Print Assumptions C06_mask2_components.
 
+(* for vector-valued labels (several conserved species) the mask is the CONJUNCTION of the component masks -- all
+   components must match, as get_qn_mask's np.all(..., axis=-1) -- not "some component matches" *)
+Theorem C06_mask1_vector_conjunction : forall (sg : list (list Z)) (m : meta VLab) i l p r,
+  @mask1 VLab sg m i l p r = true <-> forall k, @mask1 ZLab (map (comp k) sg) (proj_meta k m) i l p r = true.
+Proof. exact mask1_vector_conjunction. Qed.
+Print Assumptions C06_mask1_vector_conjunction.
+
+Theorem C06_mask2_vector_conjunction : forall (sg1 sg2 : list (list Z)) (m : meta VLab) i l p1 p2 r,
+  @mask2 VLab sg1 sg2 m i l p1 p2 r = true <->
+  forall k, @mask2 ZLab (map (comp k) sg1) (map (comp k) sg2) (proj_meta k m) i l p1 p2 r = true.
+Proof. exact mask2_vector_conjunction. Qed.
+Print Assumptions C06_mask2_vector_conjunction.
+
+(* two species (n_alpha, n_beta): left label (1,0), site charge (0,0), right-block label (0,1), total (1,1) is allowed;
+   with right-block label (0,0) the first component matches and the second does not: the mask is false although the
+   "any component" reading (component 0 alone) would accept the entry *)
+Example C06_ex_mask_all_components :
+  let m := @Build_meta VLab [[[1; 0]]; [[0; 1]; [0; 0]]] 0%nat [1; 1] true in
+  (@mask1 VLab [[0; 0]] m 0%nat 0%nat 0%nat 0%nat = true) /\
+  (@mask1 VLab [[0; 0]] m 0%nat 0%nat 0%nat 1%nat = false) /\
+  (@mask1 ZLab (map (comp 0%nat) [[0; 0]]) (proj_meta 0%nat m) 0%nat 0%nat 0%nat 1%nat = true).
+Proof. cbv zeta. repeat split; vm_compute; reflexivity. Qed.
+
 (* writing ANY tensor that vanishes outside the mask at the centre keeps the labels valid: the statement that makes the
    1-site DMRG update and the VMF / CMF parameter packing (cvec2cmat with the mask) sector preserving *)
 Theorem C06_mask_update_valid : forall (R : CRing) sig (sg : list Z) (m : metaZ) (ts : list (nat * T3 R)) i (t' : T3 R),
